@@ -19,7 +19,10 @@ PER_LAYER = [
     _h("c05_lax_ipv6_exts_24", tier="thorough", unwind=5, timeout=5400, bounds="every first header x every byte string of length 0..=24", encodes=["Ipv6ExtensionsSlice::from_slice_lax", "Ipv6ExtensionsSlice::from_slice"]),
     _h("c05_lax_ipv4_exts", unwind=4, bounds="every first header x every byte string of length 0..=28", encodes=["Ipv4ExtensionsSlice::from_slice_lax", "Ipv4ExtensionsSlice::from_slice"]),
     _h("c05_lax_ip_dispatch", unwind=4, timeout=1200, bounds="every byte string of length 0..=44 whose IPv6 next header is not an extension header", encodes=["LaxIpSlice::from_slice"]),
-    _h("c05_ref_lax_extends_strict_48", unwind=6, timeout=1200, bounds="every start x every byte string of length 0..=48 (reference decoder only)", encodes=["(reference) refm::walk strict vs lax"]),
+    _h("c05_ref_lax_extends_strict_eth", tier="thorough", unwind=6, timeout=3600, bounds="reference decoder only: from an Ethernet II header, 0..=44 bytes", encodes=["(reference) refm::walk strict vs lax"]),
+    _h("c05_ref_lax_extends_strict_sll", tier="thorough", unwind=6, timeout=3600, bounds="reference decoder only: from an SLL header, 0..=44 bytes", encodes=["(reference) refm::walk strict vs lax"]),
+    _h("c05_ref_lax_extends_strict_ether_type", tier="thorough", unwind=6, timeout=3600, bounds="reference decoder only: from any ether type, 0..=40 bytes", encodes=["(reference) refm::walk strict vs lax"]),
+    _h("c05_ref_lax_extends_strict_ip", unwind=6, timeout=1500, bounds="reference decoder only: from an IP header, 0..=48 bytes", encodes=["(reference) refm::walk strict vs lax"]),
 ]
 
 GLUE = [
